@@ -215,6 +215,9 @@ impl Searcher {
                 )
                 .score;
 
+            #[cfg(flounder_verif)]
+            verif::trace_child_value(&next_position, ply + 1, -score, -beta, -alpha);
+
             if score > best_result.score {
                 best_result.score = score;
                 best_result.best_move = Some(current_move);
@@ -530,6 +533,8 @@ pub mod verif {
             const { RefCell::new(None) };
         static QUIESCENCE_EVENTS: RefCell<Vec<(u8, Option<Move>)>> =
             const { RefCell::new(Vec::new()) };
+        static CHILD_VALUES: RefCell<Option<Vec<(Board, u8, i32, i32, i32)>>> =
+            const { RefCell::new(None) };
     }
 
     /// With dry run on, `find_best_move` only records its (max_depth, time_limit)
@@ -621,6 +626,27 @@ pub mod verif {
             Some(v) => std::mem::take(v),
             None => Vec::new(),
         })
+    }
+
+    /// With the trace on, negamax records for every child it searched the value the child
+    /// returned (from the child's side) and the window the child was given
+    pub fn set_child_value_trace(on: bool) {
+        CHILD_VALUES.with(|t| *t.borrow_mut() = if on { Some(Vec::new()) } else { None });
+    }
+
+    pub fn take_child_values() -> Vec<(Board, u8, i32, i32, i32)> {
+        CHILD_VALUES.with(|t| match t.borrow_mut().as_mut() {
+            Some(v) => std::mem::take(v),
+            None => Vec::new(),
+        })
+    }
+
+    pub fn trace_child_value(board: &Board, ply: u8, value: i32, alpha: i32, beta: i32) {
+        CHILD_VALUES.with(|t| {
+            if let Some(v) = t.borrow_mut().as_mut() {
+                v.push((*board, ply, value, alpha, beta));
+            }
+        });
     }
 
     pub fn trace_repetition(board: &Board, ply: u8, is_draw: bool) {
